@@ -500,10 +500,15 @@ func (radius *RADIUS) SerializeTo(b gopacket.SerializeBuffer, opts gopacket.Seri
 	pos := radiusMinimumRecordSizeInBytes
 	for _, v := range radius.Attributes {
 		if opts.FixLengths {
-			v.Length, err = attributeValueLength(v.Value)
+			alen, err := attributeValueLength(v.Value)
 			if err != nil {
 				return err
 			}
+			// the length on the wire counts the type and length octets
+			if alen > 253 {
+				return fmt.Errorf("RADIUS attribute value length %d too long", alen)
+			}
+			v.Length = alen + 2
 		}
 
 		data[pos] = byte(v.Type)
